@@ -40,6 +40,14 @@ def run(ctx, replay_case):
         ctx.violations.append({"kind": "correspondence", "what": "typed-integer model and implementation disagree",
                                "replay": {"correspondence": "INT", "type": ops[i][1], "value": ops[i][2],
                                           "model": model[i], "impl": impl[i], "disagreements": len(corr)}})
+    # the enumeration machinery's filtering, exercised at run time after the parent enumeration has been used (seed C16f: a member
+    # cache filled on first use was copied into subsets derived afterwards)
+    der = core.run_impl_fresh([("ENUMDERIVE",)])[0]
+    derbad = [l for l in der if " ok " not in l]
+    for l in derbad[:3]:
+        ctx.violations.append({"kind": "concrete", "signature": "enum-derive:" + l.split(" ")[1],
+                               "what": f"TPM_ALG.by_type_{l.split(' ')[1]} derived after TPM_ALG had been used does not hold exactly the members of those kinds: {l.split(' ', 2)[2][:200]}",
+                               "replay": {"sequence": ["TPM_ALG(0x000B); list(TPM_ALG)", "D = TPM_ALG.by_type_" + l.split(" ")[1], "ValidValues(D).get(x)"], "observed": l}})
     # int emulation (operators in both operand orders), implementation against the plain integer
     others = [0, 1, -1, 2, 3, 7, 255, -128, 1 << 16, (1 << 32) - 1, 1 << 63]
     emu_bad = 0
